@@ -45,6 +45,24 @@ CHECKS = {
    text="The real CLI is executed as a subprocess (RLIMIT_CPU, RLIMIT_AS, cleared environment) on generated projects of 1-3 files with random supported options. A run is clean iff it exits by itself with status 0 or 1, its last stdout line is the summary, the status matches the summary and stderr shows no panic, stack overflow or allocation failure. Evidence reports how many inputs were rejected by the lexer/parser, by the desugarer, or reached the analysis stage, and the histogram of report ids produced. All committed reproducers are replayed under all three curves. One recorded known finding (stack overflow on ~2000 nested operators) is reported as KNOWN-FINDING and excluded from the search by the generators' nesting bound.",
    note="Modest size = files <= 16 KiB and nesting depth <= 8. Hang = more than 120 CPU-seconds (480 on re-run), far above the documented 2 x 10 s time box. Absence of crashes cannot be established by sampling.",
    design="DESIGN.md §3 C01"),
+ "C03": dict(
+   level="exploration",
+   technique="differential testing of the real binary against an in-process reference that bypasses caches/writers/filters, plus algebraic filter laws over the level x allow-subset lattice and a SARIF round-trip, on generated multi-file projects (proptest tapes, shrinking)",
+   text="Generated projects whose templates instantiate each other and contain shadowing declarations are run through the real CLI and compared with a reference multiset of findings built from parse_files, direct into_cfg/into_ssa on every definition of a named file and all analysis passes. The exit status / summary contract is checked on every run, the SARIF file is compared with the findings at each level (ids, levels, messages, regions of all labels, one rule descriptor per id, `Result written` note), and the filter clause is checked as an identity displayed(L, A) = {f in U | level >= L, id not in A} for every level and every allow-subset of the occurring ids (16 sampled subsets above 4 ids), plus monotonicity under naming an extra file.",
+   note="The reference shares the individual passes with the tool by design; a report without a location must be displayed. Crashing runs are left to C01.",
+   design="DESIGN.md §3 C03"),
+ "C04": dict(
+   level="exploration",
+   technique="property-based testing of label validity and construct identity: generator-recorded source spans vs the labels of all reports collected in-process, and line:col / SARIF regions of the real binary vs positions recomputed from the original bytes (proptest tapes, shrinking)",
+   text="For every label of every report of generated projects (with multi-byte text, comments of every shape, CRLF, tabs): file id known, range ordered, inside the file and on char boundaries; the trimmed extent equals the extent of a generator node of a kind admissible for that report id and mentions the subject named in the message; the binary's file:line:col and every SARIF region equal the position recomputed from the original bytes. Error inputs (lexical/syntax faults, unterminated comments after non-ASCII text) are checked the same way.",
+   note="The id -> construct table is transcribed from the report constructors (validated on the unchanged tree); ids outside the table only need to coincide with some generator node. Trailing blanks/comments are trimmed because the grammar ends variables, numbers and includes at the next token.",
+   design="DESIGN.md §3 C04"),
+ "C19": dict(
+   level="exploration",
+   technique="model-based testing: generated include graphs on a materialised directory tree, real binary run with the parser's debug log, compared with a reference include resolver (proptest tapes, shrinking)",
+   text="Projects of 2-6 files over five directories with chains, diamonds, cycles, self includes, `./`/`../`/`dir/../` spellings, symlinks, -L directories and files in both orders, unresolvable includes, relative or absolute arguments. Checked against the reference resolver: termination, each reachable file read exactly once (canonical paths), exactly the definitions of named files analysed once, findings only in named files, one deterministic finding per template of a named file, P1000 at the include statement for unresolvable includes of named files.",
+   note="Read counts come from the parser's own `reading file` debug line (RUST_LOG), also present in release builds.",
+   design="DESIGN.md §3 C19"),
  "C05": dict(
    level="exploration",
    technique="differential testing of the comment stripper against a reference lexer (exhaustive over all strings <= 8 symbols of a 7-symbol alphabet, plus generated fragment strings) and metamorphic testing of the whole binary (blank comments / remove comments / inject unterminated opener) on generated programs",
